@@ -135,4 +135,211 @@ theorem cantelli_quantile_left (w x : ι → ℚ)
   have hsq : 0 ≤ (μ - q) ^ 2 := sq_nonneg _
   nlinarith
 
+
+/-! ## consequences in the form used by the constructors -/
+
+theorem atMost_add_above (w x : ι → ℚ) (hsum : ∑ i, w i = 1) (q : ℚ) :
+    atMost w x q + ∑ i ∈ univ.filter (fun i => q < x i), w i = 1 := by
+  classical
+  have h := Finset.sum_filter_add_sum_filter_not univ (fun i => x i ≤ q) w
+  have e : univ.filter (fun i => ¬ x i ≤ q) = univ.filter (fun i => q < x i) := by
+    ext i; simp
+  rw [e, hsum] at h; exact h
+
+theorem below_add_atLeast (w x : ι → ℚ) (hsum : ∑ i, w i = 1) (q : ℚ) :
+    below w x q + ∑ i ∈ univ.filter (fun i => q ≤ x i), w i = 1 := by
+  classical
+  have h := Finset.sum_filter_add_sum_filter_not univ (fun i => x i < q) w
+  have e : univ.filter (fun i => ¬ x i < q) = univ.filter (fun i => q ≤ x i) := by
+    ext i; simp
+  rw [e, hsum] at h; exact h
+
+/-- a quantile of positive level is not below the support -/
+theorem quantile_ge_min (w x : ι → ℚ) (m p q : ℚ) (hm : ∀ i, m ≤ x i)
+    (hp : 0 < p) (hq : p ≤ atMost w x q) : m ≤ q := by
+  classical
+  by_contra h
+  have h' : q < m := not_le.mp h
+  have e : univ.filter (fun i => x i ≤ q) = ∅ := by
+    ext i; simp; linarith [hm i]
+  unfold atMost at hq; rw [e, Finset.sum_empty] at hq; linarith
+
+/-- a quantile of level below one is not above the support -/
+theorem quantile_le_max (w x : ι → ℚ) (hsum : ∑ i, w i = 1) (b p q : ℚ) (hb : ∀ i, x i ≤ b)
+    (hp : p < 1) (hq : below w x q ≤ p) : q ≤ b := by
+  classical
+  by_contra h
+  have h' : b < q := not_le.mp h
+  have e : univ.filter (fun i => x i < q) = univ := by
+    ext i; simp; linarith [hb i]
+  unfold below at hq; rw [e, hsum] at hq; linarith
+
+/-- Markov for the upper end: support `≤ b`, mean `μ`, `0 < p ≤ P(X ≤ q)` gives `b - (b-μ)/p ≤ q` -/
+theorem markov_quantile_lower (w x : ι → ℚ) (hw : ∀ i, 0 ≤ w i) (hsum : ∑ i, w i = 1)
+    (b μ p q : ℚ) (hb : ∀ i, x i ≤ b) (hμ : ∑ i, w i * x i = μ)
+    (hp : 0 < p) (hq : p ≤ atMost w x q) : b - (b - μ) / p ≤ q := by
+  classical
+  have hμ' : ∑ i, w i * (fun i => - x i) i = -μ := by
+    rw [← hμ, ← Finset.sum_neg_distrib]; apply Finset.sum_congr rfl; intro i _; ring
+  have hfil : ∑ i ∈ univ.filter (fun i => (fun i => - x i) i < -q), w i ≤ 1 - p := by
+    have e : univ.filter (fun i => (fun i => - x i) i < -q) = univ.filter (fun i => q < x i) := by
+      ext i; simp
+    rw [e]; have := atMost_add_above w x hsum q; linarith
+  have h := markov_quantile w (fun i => - x i) hw hsum (-b) (-μ) (1 - p) (-q)
+    (fun i => by simp; exact hb i) hμ' (by linarith) hfil
+  have e : (1 : ℚ) - (1 - p) = p := by ring
+  have e2 : -μ - -b = b - μ := by ring
+  rw [e, e2] at h; linarith
+
+/-- Cantelli, left: with `σ ≥ 0`, variance `σ²`, `t ≥ 0`, `t² ≥ 1/i - 1` (`t` is the square root or any upper
+approximation of it; an exact root need not be rational), `0 < i ≤ p ≤ P(X ≤ q)`: `μ - σ t ≤ q` -/
+theorem cantelli_left_bound (w x : ι → ℚ) (hw : ∀ i, 0 ≤ w i) (hsum : ∑ i, w i = 1)
+    (μ σ t i p q : ℚ) (hμ : ∑ i, w i * x i = μ) (hV : ∑ i, w i * (x i - μ) ^ 2 = σ ^ 2)
+    (hσ : 0 ≤ σ) (ht : 0 ≤ t) (htt : 1 / i - 1 ≤ t * t) (hi : 0 < i) (hip : i ≤ p)
+    (hq : p ≤ atMost w x q) : μ - σ * t ≤ q := by
+  classical
+  by_cases hqμ : q < μ
+  · have h := cantelli_quantile_left w x hw hsum μ (σ ^ 2) p q hμ hV hqμ hq
+    have hp : 0 < p := lt_of_lt_of_le hi hip
+    have hst : 0 ≤ σ * t := mul_nonneg hσ ht
+    -- (1 - p) ≤ p * (1/i - 1)
+    have hk : 1 - p ≤ p * (1 / i - 1) := by
+      have : 1 ≤ p / i := by rw [le_div_iff₀ hi]; linarith
+      have e : p * (1 / i - 1) = p / i - p := by ring
+      rw [e]; linarith
+    have h2 : p * (μ - q) ^ 2 ≤ p * (σ * t) ^ 2 := by
+      have e : (σ * t) ^ 2 = σ ^ 2 * (t * t) := by ring
+      rw [e]
+      have : σ ^ 2 * (1 - p) ≤ σ ^ 2 * (p * (1 / i - 1)) := mul_le_mul_of_nonneg_left hk (sq_nonneg σ)
+      have h5 : σ ^ 2 * (1 / i - 1) ≤ σ ^ 2 * (t * t) := mul_le_mul_of_nonneg_left htt (sq_nonneg σ)
+      calc p * (μ - q) ^ 2 ≤ σ ^ 2 * (1 - p) := h
+        _ ≤ σ ^ 2 * (p * (1 / i - 1)) := this
+        _ = p * (σ ^ 2 * (1 / i - 1)) := by ring
+        _ ≤ p * (σ ^ 2 * (t * t)) := mul_le_mul_of_nonneg_left h5 (le_of_lt hp)
+    have h3 : (μ - q) ^ 2 ≤ (σ * t) ^ 2 := le_of_mul_le_mul_left h2 hp
+    have h4 : μ - q ≤ σ * t := by
+      by_contra hc
+      have hc' : σ * t < μ - q := not_le.mp hc
+      have : (σ * t) ^ 2 < (μ - q) ^ 2 := pow_lt_pow_left₀ hc' hst (by norm_num)
+      linarith
+    linarith
+  · have : 0 ≤ σ * t := mul_nonneg hσ ht
+    linarith [not_lt.mp hqμ]
+
+/-- Cantelli, right: `t ≥ 0`, `t² ≥ j/(1-j)`, `P(X < q) ≤ p ≤ j < 1`: `q ≤ μ + σ t` -/
+theorem cantelli_right_bound (w x : ι → ℚ) (hw : ∀ i, 0 ≤ w i) (hsum : ∑ i, w i = 1)
+    (μ σ t j p q : ℚ) (hμ : ∑ i, w i * x i = μ) (hV : ∑ i, w i * (x i - μ) ^ 2 = σ ^ 2)
+    (hσ : 0 ≤ σ) (ht : 0 ≤ t) (htt : j / (1 - j) ≤ t * t) (hj : j < 1) (hpj : p ≤ j)
+    (hq : below w x q ≤ p) : q ≤ μ + σ * t := by
+  classical
+  have hμ' : ∑ i, w i * (fun i => - x i) i = -μ := by
+    rw [← hμ, ← Finset.sum_neg_distrib]; apply Finset.sum_congr rfl; intro i _; ring
+  have hV' : ∑ i, w i * ((fun i => - x i) i - -μ) ^ 2 = σ ^ 2 := by
+    rw [← hV]; apply Finset.sum_congr rfl; intro i _; ring
+  have h1j : 0 < 1 - j := by linarith
+  have htt' : 1 / (1 - j) - 1 ≤ t * t := by
+    have e : 1 / (1 - j) - 1 = j / (1 - j) := by field_simp; ring
+    rw [e]; exact htt
+  have hat : 1 - p ≤ atMost w (fun i => - x i) (-q) := by
+    unfold atMost
+    have e : univ.filter (fun i => (fun i => - x i) i ≤ -q) = univ.filter (fun i => q ≤ x i) := by
+      ext i; simp
+    rw [e]; have := below_add_atLeast w x hsum q; linarith
+  have h := cantelli_left_bound w (fun i => - x i) hw hsum (-μ) σ t (1 - j) (1 - p) (-q) hμ' hV' hσ ht htt' h1j
+    (by linarith) hat
+  linarith
+
+/-- below the median for levels under one half -/
+theorem median_upper (w x : ι → ℚ) (hw : ∀ i, 0 ≤ w i) (med p q : ℚ)
+    (hmed : (1 : ℚ) / 2 ≤ atMost w x med) (hp : p < 1 / 2) (hq : below w x q ≤ p) : q ≤ med := by
+  classical
+  by_contra h
+  have h' : med < q := not_le.mp h
+  have : atMost w x med ≤ below w x q := by
+    unfold atMost below
+    apply Finset.sum_le_sum_of_subset_of_nonneg
+    · intro i hi; simp at hi ⊢; linarith
+    · intro i _ _; exact hw i
+  linarith
+
+/-- above the median for levels over one half -/
+theorem median_lower (w x : ι → ℚ) (hw : ∀ i, 0 ≤ w i) (med p q : ℚ)
+    (hmed : below w x med ≤ 1 / 2) (hp : 1 / 2 < p) (hq : p ≤ atMost w x q) : med ≤ q := by
+  classical
+  by_contra h
+  have h' : q < med := not_le.mp h
+  have : atMost w x q ≤ below w x med := by
+    unfold atMost below
+    apply Finset.sum_le_sum_of_subset_of_nonneg
+    · intro i hi; simp at hi ⊢; linarith
+    · intro i _ _; exact hw i
+  linarith
+
+/-! ## the extremal two-point laws (atoms indexed by `Bool`: `false` = lower atom) -/
+
+def w2 (p : ℚ) : Bool → ℚ := fun b => if b then 1 - p else p
+def x2 (lo hi : ℚ) : Bool → ℚ := fun b => if b then hi else lo
+
+theorem two_isLaw (p : ℚ) (h0 : 0 ≤ p) (h1 : p ≤ 1) : IsLaw (w2 p) := by
+  constructor
+  · intro b; cases b <;> simp [w2] <;> linarith
+  · simp [w2]
+
+theorem two_mean (p lo hi : ℚ) : mean (w2 p) (x2 lo hi) = (1 - p) * hi + p * lo := by
+  simp [mean, w2, x2]
+
+theorem below_two (p lo hi q : ℚ) :
+    below (w2 p) (x2 lo hi) q = (if hi < q then 1 - p else 0) + (if lo < q then p else 0) := by
+  unfold below; rw [Finset.sum_filter]; simp [w2, x2]
+
+theorem atMost_two (p lo hi q : ℚ) :
+    atMost (w2 p) (x2 lo hi) q = (if hi ≤ q then 1 - p else 0) + (if lo ≤ q then p else 0) := by
+  unfold atMost; rw [Finset.sum_filter]; simp [w2, x2]
+
+/-- the Markov two-point law `{m : j, m + (μ-m)/(1-j) : 1-j}` has mean `μ`, support `≥ m`, and its upper atom
+— the right bound of `min_mean` at level `j` — is its quantile at every level `p ∈ [j, 1]` -/
+theorem markov_two_point (m μ j : ℚ) (hmμ : m ≤ μ) (hj0 : 0 ≤ j) (hj1 : j < 1) :
+    IsLaw (w2 j) ∧ mean (w2 j) (x2 m (m + (μ - m) / (1 - j))) = μ ∧
+    (∀ b, m ≤ x2 m (m + (μ - m) / (1 - j)) b) ∧
+    ∀ p, j ≤ p → p ≤ 1 → IsQuantile (w2 j) (x2 m (m + (μ - m) / (1 - j))) p (m + (μ - m) / (1 - j)) := by
+  have h1j : 0 < 1 - j := by linarith
+  have hup : 0 ≤ (μ - m) / (1 - j) := div_nonneg (by linarith) (le_of_lt h1j)
+  refine ⟨two_isLaw j hj0 (le_of_lt hj1), ?_, ?_, ?_⟩
+  · rw [two_mean]; field_simp; ring
+  · intro b; cases b <;> simp [x2] <;> linarith
+  · intro p hp0 hp1
+    constructor
+    · rw [below_two]; simp only [lt_irrefl, if_false]; split_ifs <;> linarith
+    · rw [atMost_two]; simp only [le_refl, if_true]; split_ifs <;> linarith
+
+/-- the Cantelli two-point law `{μ - σt : i, μ + σ/t : 1-i}` with `t² = 1/i - 1` has mean `μ`, variance `σ²`,
+and its lower atom — the left bound of `mean_std` at level `i` — is its quantile at every level `p ∈ [0, i]` -/
+theorem cantelli_two_point (μ σ t i : ℚ) (hσ : 0 ≤ σ) (ht : 0 < t) (htt : t * t = 1 / i - 1)
+    (hi0 : 0 < i) (hi1 : i < 1) :
+    IsLaw (w2 i) ∧ mean (w2 i) (x2 (μ - σ * t) (μ + σ / t)) = μ ∧
+    var (w2 i) (x2 (μ - σ * t) (μ + σ / t)) = σ ^ 2 ∧
+    ∀ p, 0 ≤ p → p ≤ i → IsQuantile (w2 i) (x2 (μ - σ * t) (μ + σ / t)) p (μ - σ * t) := by
+  have hit : i * (t * t) = 1 - i := by rw [htt]; field_simp
+  have hmean : mean (w2 i) (x2 (μ - σ * t) (μ + σ / t)) = μ := by
+    rw [two_mean]
+    have : (1 - i) * (μ + σ / t) + i * (μ - σ * t) = μ + σ * ((1 - i) - i * (t * t)) / t := by
+      field_simp; ring
+    rw [this, hit]; simp
+  refine ⟨two_isLaw i (le_of_lt hi0) (le_of_lt hi1), hmean, ?_, ?_⟩
+  · unfold var; rw [hmean]; simp [w2, x2]
+    have ht0 : t ≠ 0 := ne_of_gt ht
+    have e : (1 - i) * (σ / t) ^ 2 + i * (σ * t) ^ 2 = σ ^ 2 * ((1 - i) / (t * t) + i * (t * t)) := by
+      field_simp
+    have h1i : (1 - i) / (t * t) = i := by
+      rw [← hit]; field_simp
+    rw [e, h1i, hit]; ring
+  · intro p hp0 hpi
+    have hle : μ - σ * t ≤ μ + σ / t := by
+      have : 0 ≤ σ * t := mul_nonneg hσ (le_of_lt ht)
+      have : 0 ≤ σ / t := div_nonneg hσ (le_of_lt ht)
+      linarith
+    constructor
+    · rw [below_two]; simp only [lt_irrefl, if_false]; split_ifs <;> linarith
+    · rw [atMost_two]; simp only [le_refl, if_true]; split_ifs <;> linarith
+
 end Pun.Law
